@@ -532,11 +532,17 @@ class BaseDocutilsDirective(tinydocutils.directives.Directive):
             and PAT_BLOCK_HAS_ARGUMENT.match(self.block_text)
         ):
             content_lines = prepare_viewlist(self.arguments[0])
+            # The argument starts on the directive's own line: keep each of its lines at
+            # its position in the source file
+            first_offset = self.lineno - 1
             self.state.nested_parse(
                 tinydocutils.statemachine.StringList(
-                    content_lines, source=self.arguments[0]
+                    content_lines,
+                    items=[
+                        (source, first_offset + i) for i in range(len(content_lines))
+                    ],
                 ),
-                self.lineno,
+                first_offset,
                 node,
                 match_titles=True,
             )
